@@ -420,7 +420,8 @@ fn check_row_pure(scratch: &Path, r: &Row) -> Check {
             match exp {
                 Expect::Error { reached } => {
                     ensure!(ne == 1, "C05:error-handler-not-called", "{what}");
-                    ensure!(code != 0 && code != 100, "C05:error-exit-code", "{what}");
+                    // detect: neither 0 nor 100; build: non-zero (100 has no meaning for build)
+                    ensure!(code != 0 && (name != "detect" || code != 100), "C05:error-exit-code", "{what}");
                     ensure!((nd + nb == 1) == *reached, "C05:reach-mismatch-on-error", "expected reached={reached}: {what}");
                     // nothing may claim success: outputs not belonging to a successful run need not be preserved
                     // bit-for-bit after a failed WRITE, but inputs and unrelated files must be
@@ -492,24 +493,74 @@ fn check_row_pure(scratch: &Path, r: &Row) -> Check {
                 _ => unreachable!(),
             }
         };
-        match &exp {
-            Expect::NoReach => noreach("must not reach buildpack code"),
-            Expect::NoReachOrNormal => {
-                if nd + nb == 0 {
-                    noreach("optional target variable missing")
-                } else {
-                    // treated as optional: behave as if present
-                    let mut r2 = r.clone();
-                    r2.env_present[4] = true;
-                    r2.env_present[5] = true;
-                    normal(&expectation(&r2))
+        let judge = |e: &Expect| -> Check {
+            match e {
+                Expect::NoReach => noreach("must not reach buildpack code"),
+                Expect::NoReachOrNormal => {
+                    if nd + nb == 0 {
+                        noreach("optional target variable missing")
+                    } else {
+                        // treated as optional: behave as if present
+                        let mut r2 = r.clone();
+                        r2.env_present[4] = true;
+                        r2.env_present[5] = true;
+                        normal(&expectation(&r2))
+                    }
+                }
+                e => normal(e),
+            }
+        };
+        let primary = judge(&exp);
+        if primary.is_err() {
+            // dimensions the statement leaves open: any of the listed behaviours is accepted
+            for alt in undecided_alternatives(r) {
+                if judge(&alt).is_ok() {
+                    return Ok(());
                 }
             }
-            e => normal(e),
         }
+        primary
     })();
     let _ = fsutil::force_remove(&root);
     r_
+}
+
+/// Behaviours that are as good as the primary expectation where the statement (and the documented contract) is silent:
+/// an api written with redundant leading zeros may count as unsupported; an empty CNB_TARGET_OS may count as missing;
+/// a missing <platform> directory may be an error; a non-UTF-8 platform env value may be passed on unchanged (Env holds
+/// OsStrings); a directory where store.toml would be may count as "no store"; a descriptor that is invalid beyond its api
+/// together with missing mandatory environment may fail on either.
+fn undecided_alternatives(r: &Row) -> Vec<Expect> {
+    let mut alts = vec![];
+    let name = EXE_NAMES[r.exe];
+    if r.bp_toml == BpToml::ApiLeadingZeros {
+        alts.push(Expect::NoReach);
+    }
+    if r.target_os == 3 {
+        alts.push(Expect::NoReach);
+    }
+    if !r.platform_present {
+        alts.push(Expect::Error { reached: false });
+        alts.push(Expect::NoReach);
+    }
+    if r.platform_present && r.platform_env_not_utf8 {
+        let mut r2 = r.clone();
+        r2.platform_env_not_utf8 = false;
+        alts.push(expectation(&r2));
+    }
+    if name == "build" && r.store_in == 0 && r.pre[2] == Pre::Directory {
+        if r.build.store.is_some() {
+            alts.push(Expect::Error { reached: true });
+        } else {
+            let mut r2 = r.clone();
+            r2.pre[2] = Pre::Absent;
+            alts.push(expectation(&r2));
+        }
+    }
+    if r.bp_toml == BpToml::ApiOkRestInvalid && r.env_present[1..].iter().any(|p| !*p) {
+        alts.push(Expect::NoReach);
+    }
+    alts
 }
 
 fn single_deviation_rows() -> Vec<Row> {
@@ -638,7 +689,7 @@ fn classify(ctx: &Ctx, r: &Row) {
 }
 
 pub fn run(ctx: &Ctx) {
-    ctx.set_rule("rows of the product: executable name {detect, build, vbp, detect.sh, Build} x argument count 0..5 x buildpack.toml {api 0.10, 00.010, 0.9, 0.11, 1, 0.10.0, non-string api, api missing, malformed, file missing, api ok but rest invalid} x presence of each of CNB_BUILDPACK_DIR, CNB_TARGET_OS/ARCH/ARCH_VARIANT/DISTRO_NAME/DISTRO_VERSION x scripted behaviour (detect: pass, pass+generated plan, fail, error; build: every subset of {launch, store, build SBOM formats, launch SBOM formats}, buildpack error, layer error from a real failing layer request) x pre-existing output files {absent, zero-length, sentinel bytes, a directory in the way} x CNB_TARGET_OS in {linux, windows, darwin, ''} x inputs (platform dir missing, non-UTF-8 platform env file, buildpack plan missing/malformed/unknown key, store.toml missing/valid/malformed/not UTF-8), each executed as a real process through a symlink. All single-dimension deviations from the all-valid rows are enumerated exhaustively, the rest of the product is sampled. Oracle: independent decision table over exit code, marker files written on entering detect/build/on_error, output files decoded by Python tomllib, and a snapshot differential of the scenario directory. Non-trivial: the row reaches buildpack code, or differs from the all-valid row in exactly one dimension; distinct = hash of the row.");
+    ctx.set_rule("rows of the product: executable name {detect, build, vbp, detect.sh, Build} x argument count 0..5 x buildpack.toml {api 0.10, 00.010, 0.9, 0.11, 1, 0.10.0, non-string api, api missing, malformed, file missing, api ok but rest invalid} x presence of each of CNB_BUILDPACK_DIR, CNB_TARGET_OS/ARCH/ARCH_VARIANT/DISTRO_NAME/DISTRO_VERSION x scripted behaviour (detect: pass, pass+generated plan, fail, error; build: every subset of {launch, store, build SBOM formats, launch SBOM formats}, buildpack error, layer error from a real failing layer request) x pre-existing output files {absent, zero-length, sentinel bytes, a directory in the way} x CNB_TARGET_OS in {linux, windows, darwin, ''} x inputs (platform dir missing, non-UTF-8 platform env file, buildpack plan missing/malformed/unknown key, store.toml missing/valid/malformed/not UTF-8), each executed as a real process through a symlink. All single-dimension deviations from the all-valid rows are enumerated exhaustively, the rest of the product is sampled. Where the statement is silent (api with leading zeros, empty CNB_TARGET_OS, missing <platform>, non-UTF-8 platform env value handed on, a directory at store.toml, invalid descriptor combined with missing env) each compatible behaviour is accepted. Oracle: independent decision table over exit code, marker files written on entering detect/build/on_error, output files decoded by Python tomllib, and a snapshot differential of the scenario directory. Non-trivial: the row reaches buildpack code, or differs from the all-valid row in exactly one dimension; distinct = hash of the row.");
     ctx.assume("CNB_TARGET_DISTRO_NAME/VERSION count as mandatory environment (libcnb documents them as mandatory although the spec calls them optional), for every value of CNB_TARGET_OS");
     ctx.assume("feature `trace` off; argv and paths are UTF-8");
     let scratch = Scratch::new("c05");
